@@ -345,7 +345,7 @@ func genKV(t *rapid.T, allowNull, allowTyped bool) []kvEntry {
 	seen := map[string]bool{}
 	var out []kvEntry
 	for len(out) < n {
-		k := rapid.SampledFrom([]string{"KEY", "key.two", "com.example.label", "A_B", "lower", "X9", "with-dash"}).Draw(t, "k")
+		k := rapid.SampledFrom([]string{"KEY", "key.two", "com.example.label", "A_B", "lower", "X9", "with-dash", "x-key", "x-"}).Draw(t, "k")
 		if seen[k] {
 			continue
 		}
